@@ -10,6 +10,7 @@ import (
 
 	"verif.local/harness/drivers/cachedrv"
 	"verif.local/harness/drivers/envdrv"
+	"verif.local/harness/drivers/srvdrv"
 )
 
 func die(err error) {
@@ -32,6 +33,8 @@ func main() {
 	seed := fs.Int64("seed", 1, "random seed")
 	cfgJSON := fs.String("cfg", "", "driver-specific configuration (json)")
 	variants := fs.String("variants", "", "comma separated key-cache policies to rotate through")
+	conc := fs.Int("concurrent", 4, "concurrent streams / goroutines")
+	long := fs.Int("long", 0, "number of long random rounds")
 	strict := fs.Bool("strict", true, "compare with the model prediction and count drift")
 	die(fs.Parse(args))
 	switch cmd {
@@ -47,6 +50,8 @@ func main() {
 			vs = strings.Split(*variants, ",")
 		}
 		die(envdrv.Replay(*in, *trace, *out, envdrv.Options{Seed: *seed, Strict: *strict}, vs))
+	case "server-replay":
+		die(srvdrv.Replay(*in, *trace, *out, *seed, *conc, *long))
 	default:
 		fmt.Fprintln(os.Stderr, "unknown driver", cmd)
 		os.Exit(2)
